@@ -223,3 +223,40 @@ Example c27_oidc_principal_ex :
     (w_cfg [] []) 1000%Z (hdr [120])
   = OAccept {| p_subject := s_alice; p_client_id := [99]; p_scopes := [[114]; []; [119]] |}.
 Proof. vm_compute. reflexivity. Qed.
+
+(* ---- histories ---------------------------------------------------------------------- *)
+
+(* the i-th answer of any history equals the single-call answer at time t_i *)
+Theorem c27_oidc_stateless : forall (parse_jwt : bytes -> token) cfg h i c,
+  nth_error h i = Some c ->
+  nth_error (oidc_run parse_jwt cfg h) i = Some (oidc_authenticate parse_jwt cfg (fst c) (snd c)).
+Proof. exact oidc_stateless. Qed.
+Print Assumptions c27_oidc_stateless.
+
+Theorem c27_psk_stateless : forall (H : bytes -> bytes) h i c,
+  nth_error h i = Some c ->
+  nth_error (psk_run H h) i
+  = Some (match psk_new H (fst c) with
+          | None => None
+          | Some hs => Some (psk_authenticate H hs (snd c))
+          end).
+Proof. exact psk_stateless. Qed.
+Print Assumptions c27_psk_stateless.
+
+Theorem c27_authn_stateless :
+  (forall (parse_jwt : bytes -> token) cfg h1 h1' c h2 h2',
+     nth_error (oidc_run parse_jwt cfg (h1 ++ c :: h2)) (length h1)
+     = nth_error (oidc_run parse_jwt cfg (h1' ++ c :: h2')) (length h1')) /\
+  (forall (H : bytes -> bytes) h1 h1' c h2 h2',
+     nth_error (psk_run H (h1 ++ c :: h2)) (length h1)
+     = nth_error (psk_run H (h1' ++ c :: h2')) (length h1')).
+Proof. exact authn_stateless. Qed.
+Print Assumptions c27_authn_stateless.
+
+(* the same token, accepted at 1000 and 1500, is rejected at 2000 = exp *)
+Example c27_authn_stateless_ex :
+  map oidc_class
+      (oidc_run (w_parse (w_claims (JStr s_main) (JStr s_alice) [])) (w_cfg [] [s_alice])
+                [(1000%Z, hdr [120]); (1500%Z, hdr [120]); (2000%Z, hdr [120]); (1999%Z, hdr [120])])
+  = [0; 0; 2; 0].
+Proof. vm_compute. reflexivity. Qed.
